@@ -403,6 +403,8 @@ def run(ctx, chk, tier="quick"):
     from .. import sqltypes
     sqltypes.check(ctx, chk, "C03.O1", modules=("classify",), views=("storm_total_rain_depth",))
     # ------------------------------------------------------------ O6 gap isolation
+    from ..typestate import lazy_cursor_loops
+    lazy_cursor_loops(ctx, chk, "C03.O6", ("classify",), why="execute on the iterated cursor ends the loop over the data intervals after the first: storms and rises of later records are never recorded")
     ci = ctx.func("classify.classify_intervals")
     ciflow = Flow.of(ci)
     loopvar = None
@@ -581,6 +583,10 @@ def _readers(ctx, chk):
     # (2) rise.py slice
     f = ctx.func("rise.compute_rise_offsets")
     flow = Flow.of(f)
+    # positions looked up in the water-level epochs index only arrays with the same rows (a storm's rain is summed
+    # over its own steps, not over steps shifted by the instants missing from water_level)
+    from .. import indexspace
+    indexspace.check(ctx, chk, "C03.O4", f, "compute_rise_offsets")
     row = None
     for b in bindings(ctx, f):
         if b.kind == "rows" and {"storm", "zeta_interval"} <= {s.table for s in b.site.stmt.sources}:
